@@ -82,6 +82,26 @@ fn to_http_front(f: &Front) -> HttpFrontend {
     }
 }
 
+/// The same frontend as the operator might spell it: host names are case-insensitive, and the
+/// tree normalises them (UTS-46) on every add and remove. Only literal and wildcard tree hosts are
+/// varied (a regex label is a pattern; the pre/post lists keep the text they were given).
+fn to_http_front_cased(f: &Front, rng: &mut Rng, rep: &mut Report, what: &str) -> HttpFrontend {
+    let mut front = to_http_front(f);
+    if f.key.pos == 1 && !f.key.host.contains('/') && rng.chance(1, 3) {
+        let cased: String = f
+            .key
+            .host
+            .chars()
+            .map(|c| if c.is_ascii_lowercase() && rng.bool() { c.to_ascii_uppercase() } else { c })
+            .collect();
+        if cased != f.key.host {
+            rep.obs(&format!("{what}_with_case_variant_host"), 1);
+            front.hostname = cased;
+        }
+    }
+    front
+}
+
 fn gen_front(rng: &mut Rng, next_cluster: &mut u32) -> Front {
     let pos = match rng.below(10) {
         0 => 0,
@@ -411,13 +431,14 @@ fn run_history(ctx: &Ctx, case: u64, rep: &mut Report) {
         if do_remove {
             let f = rng.pick(&pool).clone();
             let present = model.contains(&f.key);
-            let res = router.remove_http_front(&to_http_front(&f));
+            let given = to_http_front_cased(&f, &mut rng, rep, "removals");
+            let res = router.remove_http_front(&given);
             if present {
                 model.list_mut(f.key.pos).retain(|x| x.key != f.key);
                 removed_kinds[f.key.kind as usize] += 1;
             }
             shape.extend_from_slice(&[1, f.key.pos, f.key.kind, present as u8]);
-            ops_log.push(json!({"op": "remove", "front": front_json(&f), "was_present": present, "ok": res.is_ok()}));
+            ops_log.push(json!({"op": "remove", "front": front_json(&f), "host_as_given": given.hostname, "was_present": present, "ok": res.is_ok()}));
         } else {
             let f = if !pool.is_empty() && rng.chance(1, 4) {
                 // re-add a known key, possibly towards another cluster
@@ -431,7 +452,8 @@ fn run_history(ctx: &Ctx, case: u64, rep: &mut Report) {
                 gen_front(&mut rng, &mut next_cluster)
             };
             let present = model.contains(&f.key);
-            let res = router.add_http_front(&to_http_front(&f));
+            let given = to_http_front_cased(&f, &mut rng, rep, "adds");
+            let res = router.add_http_front(&given);
             if !present {
                 if res.is_ok() {
                     model.list_mut(f.key.pos).push(f.clone());
@@ -441,7 +463,7 @@ fn run_history(ctx: &Ctx, case: u64, rep: &mut Report) {
                 }
             }
             shape.extend_from_slice(&[0, f.key.pos, f.key.kind, present as u8]);
-            ops_log.push(json!({"op": "add", "front": front_json(&f), "was_present": present, "ok": res.is_ok()}));
+            ops_log.push(json!({"op": "add", "front": front_json(&f), "host_as_given": given.hostname, "was_present": present, "ok": res.is_ok()}));
         }
 
         // check at the end and at a few intermediate points
@@ -614,11 +636,11 @@ fn probes() -> impl Iterator<Item = (&'static str, &'static str, &'static str)> 
 pub fn run(ctx: &Ctx) -> Report {
     let mut rep = Report::new(
         "exploration",
-        "random add/remove histories over a collision-rich alphabet of frontends (pre/tree/post, exact/wildcard/regex hosts, prefix/regex/equals paths, optional method, with/without policy); after the history and at intermediate points every probe of hosts x paths x methods is looked up and compared with the acceptable set of a reference model and with routers rebuilt from the same set in shuffled order; a case is non-trivial when it holds >= 2 frontends or removed a present one; distinct = distinct op-shape sequences",
+        "random add/remove histories over a collision-rich alphabet of frontends (pre/tree/post, exact/wildcard/regex hosts - tree hosts in random letter case on adds and removals -, prefix/regex/equals paths, optional method, with/without policy); after the history and at intermediate points every probe of hosts x paths x methods is looked up and compared with the acceptable set of a reference model and with routers rebuilt from the same set in shuffled order; a case is non-trivial when it holds >= 2 frontends or removed a present one; distinct = distinct op-shape sequences",
     );
     rep.assume("regex semantics of the `regex` crate are trusted (used by both sozu and the independent matcher)");
     rep.assume("probes where the documentation leaves the choice open (several regexes, path-kind vs method trade-off, fallback to a less specific host) are exempt from the metamorphic relations and accept any Pareto-maximal answer");
-    for k in ["removals_of_present_equals", "removals_of_present_prefix", "removals_of_present_regex", "metamorphic_comparisons", "noninterference_comparisons"] {
+    for k in ["removals_of_present_equals", "removals_of_present_prefix", "removals_of_present_regex", "metamorphic_comparisons", "noninterference_comparisons", "adds_with_case_variant_host", "removals_with_case_variant_host"] {
         rep.require(k);
     }
     if let Some(path) = &ctx.replay {
